@@ -1117,7 +1117,13 @@ class Executor:
         fn = self.m.functions.get(name)
         b = self.builtins.get(name)
         if b is not None:
-            r = b(self, st, args, raw)
+            if len(st.threads) > 1 and name in self.B.SYNC_POINTS:
+                self.schedule(st)
+                if st.threads[st.cur] is not th: return     # preempted before the call: it is executed when th runs again
+            try:
+                r = b(self, st, args, raw)
+            except self.B.Blocked:
+                return      # thread blocked inside the call: it re-executes the call when it is scheduled again
             if r is NotImplemented:
                 pass
             else:
@@ -1148,45 +1154,69 @@ class Executor:
 
     # ------------------------------------------------------------------ threads
     def runnable(self, st):
+        """[(tid, kind)] kind: 'run' | 'ready' (blocked, condition now true) | 'spurious' | 'timeout' (wake-up the model may inject)"""
         out = []
         for t in st.threads:
-            if t.status == 'run': out.append(t.tid)
+            if t.status == 'run': out.append((t.tid, 'run'))
             elif t.status == 'blocked':
-                if t.wait(self, st, t): out.append(t.tid)
+                r = t.wait(self, st, t)
+                if r is True: out.append((t.tid, 'ready'))
+                elif r: out.append((t.tid, r))
         return out
 
     def schedule(self, st, forced=False):
-        """scheduling point. forced: the current thread cannot continue (blocked / done)."""
+        """scheduling point. forced: the current thread cannot continue (blocked / finished)."""
         cand = self.runnable(st)
         cur = st.cur
+        if self.replay is not None:
+            # concrete mode: follow the recorded schedule
+            i = len(st.inputs)
+            if forced or len([c for c in cand]) > 1 or (cand and cand[0][0] != cur):
+                if not cand:
+                    if all(t.status == 'done' for t in st.threads): raise PathEnd('done-all')
+                    self.violation(st, 'deadlock', 'all live threads are blocked: ' + ', '.join('%s:%s' % (t.name, t.status) for t in st.threads))
+                if not forced and st.preempt >= self.preempt_bound: return
+                if not forced and len(cand) == 1 and cand[0][0] == cur: return
+                if i >= len(self.replay): raise PathEnd('replay-exhausted')
+                tid = self.replay[i]
+                kinds = dict(cand)
+                if tid not in kinds: raise PathEnd('replay-schedule-mismatch')
+                st.inputs.append(('sched', tid))
+                if not forced and tid != cur: st.preempt += 1
+                self._switch_to(st, tid, kinds[tid])
+            return
         if forced:
-            cand = [t for t in cand if t != cur or st.threads[cur].status == 'run' or st.threads[cur].status == 'blocked']
-            cand = [t for t in cand if not (t == cur and st.threads[cur].status == 'done')]
-            if not cand:
-                if all(t.status == 'done' for t in st.threads):
-                    raise PathEnd('done-all')
-                self.violation(st, 'deadlock', 'all live threads are blocked: ' + ', '.join('%s:%s' % (t.name, t.status) for t in st.threads))
-            choices = cand
+            real = [c for c in cand if c[1] in ('run', 'ready')]
+            injected = [c for c in cand if c[1] not in ('run', 'ready')]
+            # time only passes / spurious wake-ups only matter when chosen: free when nothing else can run, else they cost a preemption
+            choices = list(real)
+            if not real: choices = [c for c in injected if c[1] == 'timeout'] or injected
+            elif st.preempt < self.preempt_bound: choices += injected
+            if not choices:
+                if all(t.status == 'done' for t in st.threads): raise PathEnd('done-all')
+                self.violation(st, 'deadlock', 'all live threads are blocked: ' + ', '.join('%s:%s' % (t.name, t.status) for t in st.threads if t.status != 'done'))
         else:
             if st.preempt >= self.preempt_bound: return
-            choices = [cur] + [t for t in cand if t != cur]
-            if len(choices) == 1: return
-        # fork one state per alternative
+            choices = [c for c in cand if c[0] == cur] + [c for c in cand if c[0] != cur]
+            if len(choices) <= 1: return
         first = choices[0]
         for alt in choices[1:]:
             sib = st.fork()
-            if not forced: sib.preempt += 1
-            sib.decisions.append(('sched', alt))
-            sib.inputs.append(('sched', alt))
-            self._switch_to(sib, alt)
+            if (not forced) or alt[1] not in ('run', 'ready'): sib.preempt += 1
+            sib.decisions.append(('sched', alt[0]))
+            sib.inputs.append(('sched', alt[0]))
+            self._switch_to(sib, alt[0], alt[1])
             self.push_state(sib)
-        st.inputs.append(('sched', first))
-        self._switch_to(st, first)
+        if forced and first[1] not in ('run', 'ready') and [c for c in cand if c[1] in ('run', 'ready')]: st.preempt += 1
+        st.inputs.append(('sched', first[0]))
+        self._switch_to(st, first[0], first[1])
 
-    def _switch_to(self, st, tid):
+    def _switch_to(self, st, tid, kind='run'):
         t = st.threads[tid]
         if t.status == 'blocked':
             t.status = 'run'; t.wait = None
+            if kind in ('spurious', 'timeout'):
+                w = dict(st.ghost.get('wake', {})); w[tid] = kind; st.ghost['wake'] = w
         st.cur = tid
 
 def sgn64(v): return v - (1 << 64) if v >> 63 else v
